@@ -3,9 +3,13 @@
 import json, os, glob, re
 VERIF = os.path.dirname(os.path.dirname(os.path.abspath(__file__)))
 rows = []
+retired = []
 for mp in sorted(glob.glob(os.path.join(VERIF, "seeded", "C*-m*", "meta.json")), key=lambda p: (p.split("/")[-2][:3], int(re.search(r"-m(\d+)", p).group(1)))):
     mid = mp.split("/")[-2]
     m = json.load(open(mp))
+    if m.get("retired"):
+        retired.append((mid, m["retired"]))
+        continue
     summ = re.sub(r"\s+", " ", m.get("summary", "")).replace("|", "\\|")
     if len(summ) > 260:
         summ = summ[:260] + "…"
@@ -19,7 +23,7 @@ with open(os.path.join(VERIF, "seeded", "README.md"), "w") as w:
     w.write(f"""# Seeded changes
 
 {n} changes to go-sms-protocol written by independent sub-agents (rounds 1 and 2: two per property and round; round 3: two
-each for 14 properties; round 4: two each for 10 properties — rounds 3 and 4 asked for bugs that need call sequences, reused
+each for 14 properties; rounds 4 and 5: two each for 10 properties per round — rounds 3 to 5 asked for bugs that need call sequences, reused
 objects, cooperating sites, the process environment or rare value combinations); each agent saw only the text of its property
 and a scratch checkout, nothing from /verif.  Every change compiles, passes the 297-test suite with the guard off, and comes
 with a demonstration test that fails with the change and passes without it — all of which was re-checked here by
@@ -31,12 +35,17 @@ To run a check against one: `git -C /repo apply /verif/seeded/<id>/patch.diff &&
 
 Column "first evaluation": *as built* = caught by the check as it stood when the change arrived; *strengthened* = missed
 first, the check was extended (what and why is in `meta.json` → `note`), then caught; *see note* = caught by a stage that
-had been added shortly before for a related reason.  Six patches that touch `gsm7.go` were rebased after the fixes
-`a8dc0b4`/`cc4fac3` (the agent's patch is kept as `patch.orig-18881e5.diff`).
+had been added shortly before for a related reason.  Patches that touch code repaired later by a `fix:` commit (`gsm7.go`: a8dc0b4/cc4fac3/5ed8035;
+`smgp30/pdu_submit.go`: 0deddb7) were rebased by hand and re-confirmed; the earlier forms are kept beside them
+(`patch.orig-*.diff`, `patch.rebased-*.diff`).
 
 | id | change | caught by | signatures (first two) | first evaluation |
 |---|---|---|---|---|
 """)
     for r in rows:
         w.write(f"| {r[0]} | {r[1]} | {r[2]} | `{r[3]}` | {r[4]} |\n")
+    if retired:
+        w.write("\nRetired (kept for the record, not counted):\n\n")
+        for mid, why in retired:
+            w.write(f"* {mid}: {why}\n")
 print(n, "rows,", caught, "caught")
